@@ -236,7 +236,20 @@ fn emit_wrapped_loop_choice_body(
             branch_nodes.extend(tokenize_inline_content(selected_text)?);
         }
         if !tags_already_emitted {
-            branch_nodes.extend(choice.selected_tags.iter().cloned().map(Node::Tag));
+            // the tags of the start content are printed with it (the `s` container)
+            let in_start_content = if choice.has_start_content {
+                choice.start_tags.len().min(choice.selected_tags.len())
+            } else {
+                0
+            };
+            branch_nodes.extend(
+                choice
+                    .selected_tags
+                    .iter()
+                    .skip(in_start_content)
+                    .cloned()
+                    .map(Node::Tag),
+            );
         }
         if !body_already_emitted && !choice.has_start_content {
             let body_is_terminal_divert = choice.body_divert_is_inline
